@@ -858,8 +858,20 @@ func ruleRowGeometry(c *eng.Ctx, R string) {
 	} else {
 		c.Viol(R, "filters.applyPNGPredictor#rowData", call.Pos(), "row bytes are not a sub-slice data[lo:hi]")
 	}
-	// tag byte
-	if ld, isLd := args[1].(*ssa.UnOp); isLd && ld.Op == token.MUL {
+	// tag byte (a conversion to a named byte type is transparent)
+	tagv := args[1]
+	for {
+		if ct, ok := tagv.(*ssa.ChangeType); ok {
+			tagv = ct.X
+			continue
+		}
+		if cv, ok := tagv.(*ssa.Convert); ok && isUint8(cv.X.Type()) && isUint8(cv.Type()) {
+			tagv = cv.X
+			continue
+		}
+		break
+	}
+	if ld, isLd := tagv.(*ssa.UnOp); isLd && ld.Op == token.MUL {
 		if ia, ok := ld.X.(*ssa.IndexAddr); ok {
 			idx, okp := eng.IntPoly(ia.Index, leaf)
 			if _, off, _, okB := absSlice(ia.X, leaf); okB && okp {
@@ -1232,18 +1244,23 @@ func ruleASCIIClasses(c *eng.Ctx) {
 			continue
 		}
 		cmp := map[int64]bool{}
-		eng.Instrs(fn, false, func(in ssa.Instruction) {
-			if b, ok := in.(*ssa.BinOp); ok {
-				switch b.Op {
-				case token.EQL, token.NEQ, token.LSS, token.GTR, token.LEQ, token.GEQ:
-					if k, ok := eng.ConstInt(b.Y); ok {
-						if t, ok := b.X.Type().Underlying().(*types.Basic); ok && t.Kind() == types.Uint8 {
-							cmp[k] = true
+		for _, h := range eng.Cluster(fn, 2) { // the scanning half may be a stage function of the decoder
+			if h.Pkg != fn.Pkg {
+				continue
+			}
+			eng.Instrs(h, false, func(in ssa.Instruction) {
+				if b, ok := in.(*ssa.BinOp); ok {
+					switch b.Op {
+					case token.EQL, token.NEQ, token.LSS, token.GTR, token.LEQ, token.GEQ:
+						if k, ok := eng.ConstInt(b.Y); ok {
+							if t, ok := b.X.Type().Underlying().(*types.Basic); ok && t.Kind() == types.Uint8 {
+								cmp[k] = true
+							}
 						}
 					}
 				}
-			}
-		})
+			})
+		}
 		var missing []string
 		for _, k := range sp.bytes {
 			if !cmp[k] {
